@@ -302,6 +302,9 @@ class Run:
         kf_path = os.path.join(VERIF, "known_findings.json")
         known = json.load(open(kf_path)) if os.path.exists(kf_path) else []
         open_kf = [k for k in known if k.get("property") == self.prop and k.get("status") == "open"]
+        want = os.environ.get("VERIF_REPLAY_CLAUSE")
+        if want:
+            violations = [v for v in violations if v["clause"] == want]
         fresh, seen = [], {}
         for v in violations:
             k = match_known(open_kf, v)
@@ -418,6 +421,20 @@ def main_wrapper(fn):
         seed = int(os.environ.get("VERIF_SEED", "1"))
     except ValueError:
         seed = 1
+    if "--replay" in args:
+        # a replay file holds the complete concrete case, the clause and the seed/tier of the run that found it;
+        # generation is deterministic in (seed, tier), so re-running the check with them re-creates the case on the
+        # CURRENT tree.  Exit 1 iff the same clause fails again.
+        rp = args[args.index("--replay") + 1]
+        try:
+            rj = json.load(open(rp))
+        except Exception as e:
+            print("INFRASTRUCTURE-ERROR cannot read replay file %s: %s" % (rp, e))
+            sys.exit(2)
+        seed, tier = int(rj.get("seed", seed)), rj.get("tier", tier)
+        print("replay: property=%s clause=%s family=%s seed=%s tier=%s case=%s" % (
+            rj.get("property"), rj.get("clause"), rj.get("family"), seed, tier, json.dumps(rj.get("case"))[:300]))
+        os.environ["VERIF_REPLAY_CLAUSE"] = rj.get("clause", "")
     run = Run(prop, tier, seed)
     rc = 2
     try:
